@@ -338,7 +338,10 @@ class Alg:
         if isinstance(stmt, ast.Assign) and len(stmt.targets) == 1:
             t = stmt.targets[0]
             if isinstance(t, ast.Name):
-                self.env[t.id] = self.ev(stmt.value)
+                if isinstance(stmt.value, (ast.Tuple, ast.List)):
+                    self.env[t.id] = [self.ev(e) for e in stmt.value.elts]
+                else:
+                    self.env[t.id] = self.ev(stmt.value)
                 return True
             if isinstance(t, ast.Tuple) and isinstance(stmt.value, ast.Tuple) and len(t.elts) == len(stmt.value.elts):
                 vals = [self.ev(v) for v in stmt.value.elts]
@@ -351,6 +354,15 @@ class Alg:
                 ch = attr_chain(t)
                 if ch:
                     self.env_attr(".".join(ch), self.ev(stmt.value))
+                    return True
+            if isinstance(t, ast.Tuple) and all(isinstance(e, (ast.Name, ast.Attribute)) for e in t.elts):
+                vals = self.ev_tuple(stmt.value)
+                if vals is not None and len(vals) == len(t.elts):
+                    for tt, v in zip(t.elts, vals):
+                        if isinstance(tt, ast.Name):
+                            self.env[tt.id] = v
+                        else:
+                            self.env_attr(".".join(attr_chain(tt)), v)
                     return True
         if isinstance(stmt, ast.AugAssign) and isinstance(stmt.target, ast.Name):
             cur = self.ev(stmt.target)
@@ -368,6 +380,18 @@ class Alg:
                 raise Uninterpreted("augassign")
             return True
         return False
+
+    def ev_tuple(self, node):
+        """Tuple-valued expression -> list of RF (or None)."""
+        if isinstance(node, (ast.Tuple, ast.List)):
+            return [self.ev(e) for e in node.elts]
+        if isinstance(node, ast.Name) and isinstance(self.env.get(node.id), list):
+            return self.env[node.id]
+        if isinstance(node, ast.Call) and self.call_hook is not None:
+            r = self.call_hook(self, node)
+            if isinstance(r, list):
+                return r
+        return None
 
     def env_attr(self, key, val):
         self.atom_map[key] = val
